@@ -493,3 +493,85 @@ func VH_C16_LibDefaultsRelation() {
 	zzverif.Assert("named-field-takes-the-value-and-no-other-field-changes", vhLibDefaultsScalarsEqual(&got, &want))
 	zzverif.Reach("parsed")
 }
+
+// ---- C16: enctype lists ------------------------------------------------------------------------------------
+
+// VH_C16_EnctypeList: `key = name sep name` for the three enctype-list keys, both names drawn from the documented
+// names (canonical names and MIT aliases of the six supported types, and names of types gokrb5 does not implement),
+// arbitrary blank separators: the ID list holds the IANA numbers of the supported names, in order; names of types
+// that are not implemented are left out; the name list holds the names as written.
+// (des3-cbc-sha1 / des3-hmac-sha1 are not in the menu: MIT reads them as type 16, the repository's own test expects
+// them to be dropped.)
+func VH_C16_EnctypeList() {
+	menu := []struct {
+		name string
+		id   int32
+	}{{"aes256-cts-hmac-sha1-96", 18}, {"aes128-cts-hmac-sha1-96", 17}, {"aes256-cts", 18}, {"aes128-cts", 17}, {"aes256-sha1", 18}, {"aes128-sha1", 17},
+		{"aes128-cts-hmac-sha256-128", 19}, {"aes256-cts-hmac-sha384-192", 20}, {"aes128-sha2", 19}, {"aes256-sha2", 20}, {"des3-cbc-sha1-kd", 16},
+		{"rc4-hmac", 23}, {"arcfour-hmac", 23}, {"arcfour-hmac-md5", 23}, {"camellia256-cts-cmac", 0}, {"des-cbc-crc", 0}, {"des-cbc-md5", 0}, {"nonsense", 0}}
+	a, b := zzverif.Choose(0, len(menu)-1), zzverif.Choose(0, len(menu)-1)
+	key := zzverif.Choose(0, 2)
+	keys := []string{"default_tgs_enctypes", "default_tkt_enctypes", "permitted_enctypes"}
+	l := newLibDefaults()
+	line := vhBlank(1) + keys[key] + " =" + vhBlank(1) + menu[a].name + vhBlank(zzverif.Param("sep")) + menu[b].name + vhBlank(1)
+	err := l.parseLines([]string{line})
+	zzverif.Assert("documented-enctype-list-accepted", err == nil)
+	var want []int32
+	if menu[a].id != 0 {
+		want = append(want, menu[a].id)
+	}
+	if menu[b].id != 0 {
+		want = append(want, menu[b].id)
+	}
+	names, ids := l.DefaultTGSEnctypes, l.DefaultTGSEnctypeIDs
+	switch key {
+	case 1:
+		names, ids = l.DefaultTktEnctypes, l.DefaultTktEnctypeIDs
+	case 2:
+		names, ids = l.PermittedEnctypes, l.PermittedEnctypeIDs
+	}
+	zzverif.Assert("names-as-written", len(names) == 2 && names[0] == menu[a].name && names[1] == menu[b].name)
+	ok := len(ids) == len(want)
+	for i := 0; ok && i < len(want); i++ {
+		ok = ids[i] == want[i]
+	}
+	zzverif.Assert("ids-are-the-iana-numbers-of-the-supported-names-in-order", ok)
+	zzverif.Reach("parsed")
+}
+
+// ---- C16: structurally invalid files ------------------------------------------------------------------------
+
+// VH_C16_InvalidFiles: a file whose other sections are valid and one of whose known sections holds a structural
+// error - a relation without '=' in [libdefaults] or [domain_realm], a closing brace that closes nothing or an
+// opening brace without '=' in [realms] - is rejected, wherever the section stands.
+func VH_C16_InvalidFiles() {
+	word := zzverif.String(2)
+	for j := 0; j < 2; j++ {
+		zzverif.Assume(zzverif.And(word[j] >= 'a', word[j] <= 'z'))
+	}
+	bad := ""
+	switch zzverif.Choose(0, 3) {
+	case 0:
+		bad = "[libdefaults]\n default_realm = A\n" + vhBlank(1) + word + "\n"
+	case 1:
+		bad = "[domain_realm]\n .a = A\n" + vhBlank(1) + word + vhBlank(1) + "\n"
+	case 2:
+		bad = "[realms]\n A = {\n  kdc = h\n }\n" + vhBlank(1) + "}\n"
+	default:
+		bad = "[realms]\n" + vhBlank(1) + word + " {\n  kdc = h\n }\n"
+	}
+	before, after := "", ""
+	if zzverif.Choose(0, 1) == 1 {
+		before = vhNoiseLine() + "\n[" + word + "]\n x = y\n"
+	}
+	if zzverif.Choose(0, 1) == 1 {
+		after = "[" + word + "]\n" + vhNoiseLine() + "\n x = y\n"
+	}
+	_, err := NewFromString(before + bad + after)
+	zzverif.Assert("structurally-invalid-file-rejected", err != nil)
+	if err != nil {
+		_, unsupported := err.(UnsupportedDirective)
+		zzverif.Assert("rejection-is-not-a-mere-unsupported-directive-notice", !unsupported)
+	}
+	zzverif.Reach("rejected")
+}
